@@ -31,7 +31,7 @@ ASSUMPTIONS = ['with a swallowing host callback (attempt) only "no node passes t
                'the effect log sees host probe calls, writes to the names mapping and the mutating builtins; other in-place effects (x += list) surface through the names write that follows them']
 REAL = ['smartquery.*']
 STUB = ['host callbacks t / call / attempt']
-REACH_PROBES = ('ops_lower_bound_checked', 'nested_eval_reentry', 'abort_inside_lambda', 'abort_inside_hof', 'abort_after_effect', 'cross_eval_lambda_called',
+REACH_PROBES = ('ast_names_expression', 'ops_lower_bound_checked', 'nested_eval_reentry', 'abort_inside_lambda', 'abort_inside_hof', 'abort_after_effect', 'cross_eval_lambda_called',
                 'swallowing_host', 'default_budget_checked', 'kill_twin_compared', 'full_sweep')
 
 
@@ -81,7 +81,13 @@ def generate(seed, tier):
                 if ro.random() < 0.35:
                     # a host callback re-enters the parser (nested eval) before the stored lambda is invoked
                     prog[1].insert(ro.randrange(at + 1), ['call', 're', [['num', str(ro.choice([0, 1, 1, 2, 2]))]], 'plain'])
-        ops.append({'op': 'eval', 'prog': prog, 'style': gen.style(S['render']), 'kinds': sorted(g.kinds)})
+        op = {'op': 'eval', 'prog': prog, 'style': gen.style(S['render']), 'kinds': sorted(g.kinds)}
+        if last and arity and ro.random() < 0.25:
+            # the host also passes ast_names whose (parsed) expressions are evaluated by this call before the program:
+            # their operations - and the bodies of stored lambdas they call - belong to this call's budget too
+            f = ro.choice(sorted(arity))
+            op['ast_names'] = {'an': ['call', f, [['num', str(ro.randint(0, 3))] for _ in range(arity[f])], 'plain']}
+        ops.append(op)
         model.run(prog)
     return {'world': world, 'ops': ops, 'cross': cross}
 
@@ -122,9 +128,13 @@ def _run(case, src, budget=None, default=False, kill_at=None):
     rec = monitors.Rec()
     rec.log_effects = True
     rec.kill_at = kill_at
+    ast = None
+    if case['ops'][-1].get('ast_names'):
+        from .. import boot
+        ast = {k: boot.fresh_parser().parse(lang.render(t, 0)) for k, t in case['ops'][-1]['ast_names'].items()}
     try:
         rout = real_eval(W.parser, src, names, budget=budget if budget is not None else 10 ** 9, rec=rec,
-                         default_budget=default)
+                         default_budget=default, ast_names=ast)
     except SimKill:
         rout = None
     return rout, rec, names, W
@@ -191,6 +201,9 @@ def execute(case, ctx):
         if m.run(o['prog'])[0] == 'unspec':
             in_domain = False       # the model lost track of the state: no prediction for the last program
     mout = m.run(op['prog'])
+    if case['ops'][-1].get('ast_names'):
+        ctx.probe('ast_names_expression')
+        in_domain = False
     if in_domain and mout[0] == 'value' and twin.kind == 'value' and canon.canon(mout[1]) == tsig[1]:
         ctx.probe('ops_lower_bound_checked')
         if K < m.steps:
